@@ -28,6 +28,7 @@ def run(e, R, tier):
         B.r_kill_tree,
         B.r_worker_unpickle,
         P.r_exitcode,
+        P.r_popen_api,
         L.r_wake,
         L.r_own_resolve,
         L.r_drop_resolves,
